@@ -6,7 +6,7 @@ from vlib.runner import Clause
 from vlib import q as Q
 from vlib.canon import close, finite
 from props import _qla as L
-from geometry_tools import hyperbolic as H, utils, coxeter
+from geometry_tools import hyperbolic as H, utils, coxeter, projective, representation
 
 LEVEL = "proof"
 EXPLANATION = ("Lean theorems (every dimension, every field of characteristic 0; ordered where signs are read): "
@@ -666,6 +666,15 @@ def run_oracle(inp):
         out["pred"] = {"interior": bool(np.all(H.timelike((acc @ P).proj_data))),
                        "ideal": bool(np.all(H.lightlike(np.asarray((acc @ I).proj_data) / np.max(np.abs((acc @ I).proj_data), axis=-1, keepdims=True)))),
                        "exterior": bool(np.all(H.spacelike((acc @ E).proj_data)))}
+    # (G2/G3) constructors keep no state: overwrite the matrices handed out, build every letter again, compare
+    snap = [np.array(p.matrix, dtype=float, copy=True) for p in pool]
+    for p in pool:
+        try:
+            p.matrix[...] = 0.0
+        except Exception:
+            pass
+    rebuilt = [np.asarray(build_fletter(l, dim).matrix, dtype=float) for l in inp["pool"]]
+    out["rebuild_dev"] = max(float(np.max(np.abs(a - b)) / (1 + np.max(np.abs(a)))) for a, b in zip(snap, rebuilt))
     return out
 
 
@@ -681,6 +690,9 @@ def judge_oracle(inp, obs, lr):
     amp = max(obs["amp"], max(1.0, obs["norm"]) ** 2)
     if not (obs["res"] <= 1e-9 * len(inp["word"]) + 1e-13 * amp):
         return {"expected": "word of isometries/inverses preserves the form", "observed": obs["res"], "tags": dict(tags, word=True)}
+    if not obs.get("rebuild_dev", 0) <= 1e-12:
+        return {"expected": "the same constructor call gives the same isometry again (after other calls, and after the first result was overwritten)",
+                "observed": obs["rebuild_dev"], "tags": dict(tags, state=True)}
     if obs["cls"] != "Isometry" or obs["imgcls"] != "Point":
         return {"expected": "Isometry / Point", "observed": [obs["cls"], obs["imgcls"]], "tags": dict(tags, cls=True)}
     n2 = amp
@@ -773,7 +785,26 @@ def gen_pack(rng, n):
     for _ in range(n):
         dim = rng.choice([1, 2, 2, 3, 4])
         kind = rng.choice(["loxodromic", "loxodromic", "rotation", "elliptic", "sl2", "reflection", "origin_to", "timelike_to",
-                           "spacelike_to", "tangent"])
+                           "spacelike_to", "tangent", "mixed_word", "mixed_word"])
+        if kind == "mixed_word":
+            # (G4) letters of different dtypes composed in both orders
+            dim = rng.choice([2, 3])
+            parts = []
+            for _ in range(rng.randint(2, 3)):
+                pk_kind = rng.choice(["loxodromic", "rotation", "elliptic"])
+                sub = {"kind": pk_kind, "dim": dim}
+                if pk_kind == "loxodromic":
+                    sub.update(v=rng.choice([2, 3, -2]), pack=rng.choice(SCALAR_PACKS))
+                elif pk_kind == "rotation":
+                    sub.update(v=rng.choice([1, 2, -3]), pack=rng.choice(SCALAR_PACKS))
+                else:
+                    perm = list(range(dim))
+                    rng.shuffle(perm)
+                    sub.update(v=[[(rng.choice([-1, 1]) if perm[i] == j else 0) for j in range(dim)] for i in range(dim)],
+                               pack=rng.choice(ARRAY_PACKS), cv=rng.random() < 0.5)
+                parts.append(sub)
+            yield {"kind": kind, "dim": dim, "parts": parts, "pack": "+".join(p_["pack"] for p_ in parts)}
+            continue
         if kind == "rotation" and dim < 2:
             dim = 2
         if kind == "sl2":
@@ -838,6 +869,23 @@ def build_pack(inp, pk):
 
 
 def run_pack(inp):
+    if inp["kind"] == "mixed_word":
+        def word(packed):
+            accs = []
+            for order in (inp["parts"], inp["parts"][::-1]):
+                acc = None
+                for sub in order:
+                    scalar = sub["kind"] in ("loxodromic", "rotation")
+                    x = build_pack(sub, sub["pack"] if packed else ("pyfloat" if scalar else "float64"))
+                    acc = x if acc is None else acc @ x
+                accs.append(np.asarray(acc.matrix, dtype=float))
+            return np.array(accs)
+        ref = word(False)
+        try:
+            M = word(True)
+        except Exception as e:
+            return {"exc": type(e).__name__, "msg": str(e)[:160], "ref_res": fres(ref)}
+        return {"res": fres(M), "ref_res": fres(ref), "same": bool(np.max(np.abs(M - ref)) <= 1e-5 * (1 + np.max(np.abs(ref)))), "M": M.tolist()}
     scalar = inp["kind"] in ("loxodromic", "rotation")
     ref = np.asarray(build_pack(inp, "pyfloat" if scalar else "float64").matrix, dtype=float)
     try:
@@ -898,6 +946,292 @@ def judge_crefl(inp, obs, lr):
     return None
 
 
+# ------------------------------------------------------------------------------------------------
+# Generic defences (G1 fresh-object differential, G2 input/output isolation) for points moved by isometries
+# ------------------------------------------------------------------------------------------------
+QUERIES = ["none", "distance", "hyperboloid", "klein", "poincare", "copy"]
+
+
+def gen_history_pts(rng, n):
+    base = gen_oracle(3, 1.5)
+    for inp in base(rng, n):
+        inp["pre"] = [rng.choice(QUERIES) for _ in range(3)]          # queries made on the points before they are moved
+        inp["mid"] = rng.choice(QUERIES)                                 # query on the image before it is moved again
+        inp["style"] = rng.choice(["matmul", "apply", "two_step", "two_step"])
+        inp["index"] = rng.random() < 0.3                                # move an indexed sub-object
+        inp["mutate_returned"] = rng.random() < 0.5
+        yield inp
+
+
+def _query(P, Pq, q):
+    if q == "distance":
+        P.distance(Pq)
+        Pq.distance(P)
+    elif q == "hyperboloid":
+        P.hyperboloid_coords()
+        Pq.hyperboloid_coords()
+    elif q in ("klein", "poincare"):
+        P.coords(q)
+        Pq.coords(q)
+    elif q == "copy":
+        from copy import copy
+        copy(P).distance(copy(Pq))
+
+
+def run_history_pts(inp):
+    dim = inp["dim"]
+    pool = [build_fletter(l, dim) for l in inp["pool"]]
+    letters = []
+    for w in inp["word"]:
+        x = pool[w["l"]]
+        letters.append(x.inv() if w["inv"] else x)
+    ps = tuple(inp["pshape"])
+    K0 = np.array(inp["interior"]).reshape(ps + (dim,))
+    K1 = np.roll(np.array(inp["interior"]), 1, axis=0).reshape(ps + (dim,))
+    P, Pq = H.Point(K0.copy(), model="klein"), H.Point(K1.copy(), model="klein")
+    for q in inp["pre"]:
+        _query(P, Pq, q)
+    if inp["index"]:
+        P, Pq = P[0], Pq[0]
+    # fresh copies of the points as they are now (primary data only)
+    F0, F1 = H.Point(np.array(P.proj_data, copy=True)), H.Point(np.array(Pq.proj_data, copy=True))
+    d_before = np.asarray(F0.distance(F1), dtype=float)
+    X, Y = P, Pq
+    acc = None
+    for k, g in enumerate(letters):
+        if inp["style"] == "apply":
+            X, Y = g.apply(X), g.apply(Y)
+        else:
+            X, Y = g @ X, g @ Y
+        acc = g if acc is None else g @ acc
+        if inp["style"].startswith("two_step") and k == 0:
+            _query(X, Y, inp["mid"])
+    if inp["style"] == "two_step":
+        pass
+    d_hist = np.asarray(X.distance(Y), dtype=float)
+    kl_hist = np.asarray(X.coords("klein"), dtype=float)
+    Xf, Yf = H.Point(np.array(X.proj_data, copy=True)), H.Point(np.array(Y.proj_data, copy=True))
+    d_fresh = np.asarray(Xf.distance(Yf), dtype=float)
+    # queries that mix the object with a history with objects without one: an unmoved reference point, the fresh image
+    R = H.Point(np.array(inp["interior"][::-1]).reshape(ps + (dim,))[0 if inp["index"] else ...].copy(), model="klein")
+    mix = [np.asarray(X.distance(R), dtype=float), np.asarray(R.distance(Y), dtype=float), np.asarray(X.distance(Yf), dtype=float)]
+    mixf = [np.asarray(Xf.distance(R), dtype=float), np.asarray(R.distance(Yf), dtype=float), np.asarray(Xf.distance(Yf), dtype=float)]
+    hyp_hist = np.asarray(X.hyperboloid_coords(), dtype=float)
+    hyp_fresh = np.asarray(H.Point(np.array(X.proj_data, copy=True)).hyperboloid_coords(), dtype=float)
+    hyp_dev = float(np.max(np.minimum(np.max(np.abs(hyp_hist - hyp_fresh), axis=-1), np.max(np.abs(hyp_hist + hyp_fresh), axis=-1)) /
+                           (1 + np.max(np.abs(hyp_fresh), axis=-1))))
+    kl_fresh = np.asarray(Xf.coords("klein"), dtype=float)
+    # the images computed in one go from fresh points by the composite isometry
+    Xd = acc @ H.Point(np.array(F0.proj_data, copy=True))
+    kl_direct = np.asarray(Xd.coords("klein"), dtype=float)
+    out = {"d_before": d_before.reshape(-1).tolist(), "d_hist": d_hist.reshape(-1).tolist(), "d_fresh": d_fresh.reshape(-1).tolist(),
+           "mix": np.concatenate([m.reshape(-1) for m in mix]).tolist(), "mixf": np.concatenate([m.reshape(-1) for m in mixf]).tolist(),
+           "hyp_dev": hyp_dev,
+           "kl_dev": float(np.max(np.abs(kl_hist - kl_fresh))), "kl_direct_dev": float(np.max(np.abs(kl_direct - kl_fresh))),
+           "amp": word_amp(inp, [np.asarray(p.matrix, dtype=float) for p in pool])}
+    if inp["mutate_returned"]:
+        c = X.coords("klein")
+        c[...] = 0.0
+        c2 = X.coords("poincare")
+        c2[...] = 7.0
+        out["kl_after_mutation_dev"] = float(np.max(np.abs(np.asarray(X.coords("klein"), dtype=float) - kl_fresh)))
+    return out
+
+
+def judge_history_pts(inp, obs, lr):
+    tags = {"dim": inp["dim"], "style": inp["style"], "pre": inp["pre"], "mid": inp["mid"], "index": inp["index"]}
+    if "exc" in obs:
+        return {"expected": "moved points", "observed": obs, "tags": dict(tags, exc=obs["exc"])}
+    amp = max(1.0, obs["amp"])
+    for a, b, c in zip(obs["d_before"], obs["d_hist"], obs["d_fresh"]):
+        tol = 1e-9 * amp * max(1.0, math.cosh(a)) / max(math.sinh(a), 1e-3) + 1e-7
+        if not (math.isfinite(b) and math.isfinite(c) and abs(b - c) <= tol):
+            return {"expected": f"distance between the images = distance between fresh points built from the images' coordinates ({c})",
+                    "observed": b, "tags": dict(tags, fresh_differential=True)}
+        if not abs(a - c) <= tol:
+            return {"expected": f"distance {a} unchanged by the isometry", "observed": c, "tags": dict(tags, distance=True)}
+    for b, c in zip(obs["mix"], obs["mixf"]):
+        tol = 1e-9 * amp * max(1.0, math.cosh(c)) / max(math.sinh(c), 1e-3) + 1e-7
+        if not (math.isfinite(b) and abs(b - c) <= tol):
+            return {"expected": f"distance from a moved point to a point without history = the same from a fresh copy of the image ({c})",
+                    "observed": b, "tags": dict(tags, fresh_differential=True, mixed=True)}
+    if not obs["hyp_dev"] <= 1e-9 * amp + 1e-9:
+        return {"expected": "hyperboloid coordinates of the moved point = those of a fresh point with the same data", "observed": obs["hyp_dev"],
+                "tags": dict(tags, fresh_differential=True, coords="hyperboloid")}
+    if not (obs["kl_dev"] <= 1e-9 and obs["kl_direct_dev"] <= 1e-9 * amp + 1e-9):
+        return {"expected": "Klein coordinates of the moved object = those of a fresh point with the same data / of the image under the composite",
+                "observed": obs, "tags": dict(tags, fresh_differential=True, coords=True)}
+    if obs.get("kl_after_mutation_dev", 0) > 1e-9:
+        return {"expected": "overwriting an array returned by coords() does not change the point", "observed": obs["kl_after_mutation_dev"],
+                "tags": dict(tags, output_isolation=True)}
+    return None
+
+
+# ---- G2 on the constructors: the arrays handed in are not modified (timelike_to / spacelike_to normalise their
+# argument in place on the clean tree, so for them only the projective class of each row is required to survive)
+def gen_iso_inputs(rng, n):
+    for _ in range(n):
+        dim = rng.choice([1, 2, 2, 3, 4])
+        l = gen_fletter(rng, dim, 1.5)
+        while l["kind"] in ("cox", "reflectionD", "isometry_to", "tv_origin_to", "rotation", "loxodromic"):
+            l = gen_fletter(rng, dim, 1.5)
+        l["view"] = rng.random() < 0.4
+        yield {"dim": dim, "letter": l}
+
+
+def run_iso_inputs(inp):
+    l, dim = inp["letter"], inp["dim"]
+    k = l["kind"]
+
+    def arr(x):
+        a = np.array(x, dtype=float)
+        if l["view"]:                       # a non-contiguous view of a larger array
+            big = np.zeros(a.shape[:-1] + (2 * a.shape[-1],))
+            big[..., ::2] = a
+            return big[..., ::2]
+        return a
+    if k in ("origin_to", "timelike_to"):
+        a = arr(H.Point(np.array(l["p"]), model="klein").proj_data * l["s"])
+        a0 = a.copy()
+        iso = H.Point(a).origin_to(force_oriented=l["fo"]) if k == "origin_to" else H.timelike_to(a, force_oriented=l["fo"])
+        strict = k == "origin_to"
+    elif k == "spacelike_to":
+        T = H.TangentVector(H.Point(np.array(l["p"]), model="klein"), np.array(l["v"]))
+        a = arr(np.array(T.vector, dtype=float) * 1.7)
+        a0 = a.copy()
+        iso = H.spacelike_to(a, force_oriented=l["fo"])
+        strict = False
+    elif k == "elliptic":
+        a = arr(l["O"])
+        a0 = a.copy()
+        iso = H.Isometry.elliptic(dim, a, column_vectors=l["cv"])
+        strict = True
+    elif k == "reflection":
+        a = arr(l["d"])
+        a0 = a.copy()
+        iso = H.Hyperplane(a).reflection_across()
+        strict = True
+    elif k == "sl2":
+        a = arr(l["A"])
+        a0 = a.copy()
+        iso = H.sl2_iso(a)
+        strict = True
+    else:
+        raise ValueError(k)
+    m0 = np.array(iso.matrix, dtype=float, copy=True)
+    changed = float(np.max(np.abs(a - a0)))
+    # projective class of each row
+    r0, r1 = a0.reshape(-1, a0.shape[-1]), np.asarray(a).reshape(-1, a0.shape[-1])
+    proj = float(max(np.max(np.abs(np.outer(x, y) - np.outer(y, x))) / (np.max(np.abs(x)) * np.max(np.abs(y))) for x, y in zip(r0, r1))) \
+        if k in ("timelike_to", "spacelike_to", "origin_to") else 0.0
+    # and the input array is not aliased by the result: overwriting it afterwards leaves the isometry alone
+    a[...] = 0.0
+    alias = float(np.max(np.abs(np.asarray(iso.matrix, dtype=float) - m0)))
+    return {"strict": strict, "changed": changed, "proj": proj, "alias": alias, "res": fres(m0)}
+
+
+def judge_iso_inputs(inp, obs, lr):
+    tags = {"ctor": inp["letter"]["kind"], "dim": inp["dim"], "view": inp["letter"]["view"]}
+    if "exc" in obs:
+        return {"expected": "an isometry", "observed": obs, "tags": dict(tags, exc=obs["exc"])}
+    if not obs["res"] <= 1e-9:
+        return {"expected": "an isometry", "observed": obs, "tags": dict(tags, residual=True)}
+    if obs["strict"] and obs["changed"] > 0:
+        return {"expected": "the array passed to the constructor is not modified", "observed": obs, "tags": dict(tags, input_isolation=True)}
+    if obs["proj"] > 1e-9:
+        return {"expected": "the vector passed in still represents the same projective point", "observed": obs, "tags": dict(tags, input_isolation=True)}
+    if obs["alias"] > 0 and inp["letter"]["kind"] not in ("elliptic",):
+        return {"expected": "the isometry does not alias the array it was built from", "observed": obs, "tags": dict(tags, aliasing=True)}
+    return None
+
+
+# ------------------------------------------------------------------------------------------------
+# Generic defence G3: elements enumerated through automaton_accepted / freely_reduced_elements / isometries(words),
+# with the same kinds of calls made on UNRELATED representations in between, in both orders
+# ------------------------------------------------------------------------------------------------
+def gen_enum(rng, n):
+    for _ in range(n):
+        spec = rng.choice([c for c in COX if (3 if c[0] == "tri" else len(c[1]) + 1) <= 4])
+        rank = 3 if spec[0] == "tri" else len(spec[1]) + 1
+        noise = []
+        for _ in range(rng.randint(0, 3)):
+            noise.append({"who": rng.choice(["canonical_same_group", "canonical_same_group", "projective_free", "plain_free",
+                                             "hyperbolic_other_group", "tits_vinberg_same_group"]),
+                          "how": rng.choice(["automaton", "automaton", "free", "words"]), "L": rng.randint(1, 3),
+                          "seed": rng.randint(0, 10 ** 6)})
+        yield {"cox": [spec[0], list(spec[1])], "rank": rank, "L": rng.randint(1, 3), "maxlen": rng.random() < 0.7,
+               "how": rng.choice(["automaton", "automaton", "free", "words"]), "noise": noise,
+               "order": rng.choice(["noise_first", "noise_first", "target_noise_target"]), "history": gen_history(rng, spec, 2),
+               "shortlex": rng.random() < 0.7}
+
+
+def _enumerate(rep, fsa, how, L, maxlen, names):
+    """returns (matrices of the enumerated elements as float array, words)"""
+    if how == "automaton":
+        els, words = rep.automaton_accepted(fsa, L, maxlen=maxlen, with_words=True)
+    elif how == "free":
+        els, words = rep.freely_reduced_elements(min(L, 2), maxlen=maxlen, with_words=True)
+    else:
+        words = ["", names[0], names[0] + names[1], names[-1] + names[0].upper() + names[1], names[1] * 2][:2 + L]
+        els = rep.elements(words)
+    M = np.asarray(els.matrix if hasattr(els, "matrix") else els, dtype=float)
+    return M, list(words)
+
+
+def _noise(step, spec, fsa, names, rank):
+    r = np.random.default_rng(step["seed"])
+    who = step["who"]
+    if who == "canonical_same_group":
+        rep = cox_group(spec)[0].canonical_representation()
+    elif who == "tits_vinberg_same_group":
+        G2 = cox_group(spec)[0]
+        inf = list(zip(*np.nonzero(G2.coxeter_matrix < 0)))
+        rep = G2.tits_vinberg_rep({inf[0]: -3.0, inf[0][::-1]: -2.0}) if inf else G2.geometric_representation()
+    elif who == "hyperbolic_other_group":
+        other = next(c for c in COX if (3 if c[0] == "tri" else len(c[1]) + 1) == rank and (c[0], tuple(c[1])) != (spec[0], tuple(spec[1])))
+        rep = cox_group(other)[0].hyperbolic_rep()
+    elif who == "projective_free":
+        rep = projective.ProjectiveRepresentation()
+        for g in names:
+            rep[g] = projective.Transformation(r.normal(size=(rank, rank)) + 2 * np.eye(rank))
+    else:
+        rep = representation.Representation()
+        for g in names:
+            rep[g] = r.normal(size=(rank, rank)) + 2 * np.eye(rank)
+    _enumerate(rep, fsa, step["how"], step["L"], True, names)
+
+
+def run_enum(inp):
+    spec = (inp["cox"][0], tuple(inp["cox"][1]))
+    G, names = cox_group(spec)
+    fsa = G.automaton(shortlex=inp["shortlex"])
+    apply_history(G, inp["history"])
+    rep = G.hyperbolic_rep()
+    if inp["order"] == "target_noise_target":
+        _enumerate(rep, fsa, inp["how"], inp["L"], inp["maxlen"], names)
+    for step in inp["noise"]:
+        _noise(step, spec, fsa, names, inp["rank"])
+    M, words = _enumerate(rep, fsa, inp["how"], inp["L"], inp["maxlen"], names)
+    # reference: every word evaluated on its own on a fresh group object
+    fresh = cox_group(spec)[0].hyperbolic_rep()
+    ref = np.array([np.asarray(fresh[w].matrix, dtype=float) for w in words]).reshape((len(words), inp["rank"], inp["rank"]))
+    return {"count": len(words), "shape": list(M.shape), "res": fres(M) if M.size else 0.0,
+            "dev": float(np.max(np.abs(M - ref)) / max(1.0, float(np.max(np.abs(ref))))) if M.size and M.shape == ref.shape else (0.0 if not M.size else float("inf")),
+            "words": words[:6]}
+
+
+def judge_enum(inp, obs, lr):
+    tags = {"how": inp["how"], "order": inp["order"], "noise": sorted({s_["who"] for s_ in inp["noise"]}), "rank": inp["rank"]}
+    if "exc" in obs:
+        return {"expected": "enumerated isometries", "observed": obs, "tags": dict(tags, exc=obs["exc"])}
+    if not obs["res"] <= 1e-9:
+        return {"expected": "every enumerated element preserves the form", "observed": obs, "tags": dict(tags, residual=True)}
+    if not obs["dev"] <= 1e-9:
+        return {"expected": "each enumerated element = the image of its word computed on a fresh representation", "observed": obs,
+                "tags": dict(tags, cross_object=True)}
+    return None
+
+
 CLAUSES = [
     Clause("ctor_corr", "corr", gen_ctor, run_ctor, judge_ctor, lean=lean_ctor,
            site="hyperbolic.Isometry.standard_rotation/elliptic/standard_loxodromic, sl2_iso, Subspace.reflection_across",
@@ -919,6 +1253,15 @@ CLAUSES = [
     Clause("iso_oracle_far", "oracle", gen_oracle(3, 4.0), run_oracle, judge_oracle,
            site="every Isometry constructor; Transformation.apply/inv", budget={"quick": 300, "thorough": 12000},
            what="same with translation lengths up to 4"),
+    Clause("history_points_oracle", "oracle", gen_history_pts, run_history_pts, judge_history_pts,
+           site="Transformation.apply / Point.distance / coords on objects with a history", budget={"quick": 250, "thorough": 8000},
+           what="G1/G2: points queried (distance, hyperboloid, klein, poincare, copy) before being moved, moved in one or two steps by @ or apply, indexed; every query on the image = the same query on a fresh point built from the image's data = the image under the composite; distances invariant; overwriting returned coordinate arrays changes nothing"),
+    Clause("ctor_inputs_oracle", "oracle", gen_iso_inputs, run_iso_inputs, judge_iso_inputs, site="Isometry constructors (input isolation)",
+           budget={"quick": 150, "thorough": 4000},
+           what="G2: arrays (incl. non-contiguous views) handed to origin_to / elliptic / sl2_iso / Hyperplane are not modified (timelike_to, spacelike_to: same projective point) and are not aliased by the result"),
+    Clause("enumeration_oracle", "oracle", gen_enum, run_enum, judge_enum,
+           site="HyperbolicRepresentation.automaton_accepted / freely_reduced_elements / elements", budget={"quick": 120, "thorough": 3000},
+           what="G3: elements enumerated through automaton_accepted / freely_reduced_elements / elements(words) after (and between) the same calls on unrelated representations with the same generator names (canonical, Tits–Vinberg, projective and plain free-group reps, another Coxeter group) and after a call history on the group: all preserve the form and equal the word images on a fresh representation"),
     Clause("composite_reflection_oracle", "oracle", gen_crefl, run_crefl, judge_crefl, site="hyperbolic.Hyperplane / Subspace.reflection_across (composite)",
            budget={"quick": 80, "thorough": 2000},
            what="arrays of spacelike normals: every unit of the composite reflection is the reflection in its own normal"),
